@@ -48,6 +48,14 @@ class MonEnd(ChanEnd):
         self.waiting = False  # only touched with self._rd.cv held
         self.on_wait = None  # callable, invoked (pipe lock held) each time recv() is about to park
         self.nrecv = 0  # recv() calls that returned data (progress counter)
+        self.after_send = None  # callable(data) run in the sender's thread after each send()
+
+    def send(self, data):
+        n = super().send(data)
+        hook = self.after_send
+        if hook is not None:
+            hook(data)  # schedule perturbation seam: runs in the sending thread, no lock held
+        return n
 
     def recv(self, n):
         d = self._rd
